@@ -639,6 +639,10 @@ class InterpolatableFunction(ABC):
         self._directEvaluateCount = 0
         self._directlyEvaluatedAt = []
 
+        if not self.hasInterpolation() and evaluatedPointMin == evaluatedPointMax:
+            # Cannot build a table from a single point, wait for more evaluations
+            return
+
         if self.hasInterpolation():
             appendPointCount = int(0.2 * self._initialInterpolationPointCount)
         else:
